@@ -4,7 +4,7 @@
 use crate::engine::*;
 use crate::refmodel::civil::*;
 use tyme4rs::tyme::jd::JulianDay;
-use tyme4rs::tyme::solar::{SolarDay, SolarMonth, SolarYear};
+use tyme4rs::tyme::solar::{SolarDay, SolarMonth, SolarTime, SolarWeek, SolarYear};
 use tyme4rs::tyme::Tyme;
 
 fn alphabet(quick: bool) -> Vec<i64> {
@@ -217,6 +217,85 @@ fn check_accept(ctx: &Ctx, civ: &Civil, y: i64, l: &mut Local) {
   }
 }
 
+/// Dates handed out in lists: every element of every week of month (y, m), for all seven week starts, must be an
+/// existing civil date, the i-th day after the week's first day, and the first day must be the model's.
+fn check_weeks(ctx: &Ctx, civ: &Civil, y: i32, m: u8, l: &mut Local) {
+  let o1 = match civ.ord(y, m, 1) {
+    Some(o) => o as i64,
+    None => return,
+  };
+  let wd1 = (civ.jdn(o1 as usize) + 1).rem_euclid(7); // 0 = Sunday
+  let n = civ.len() as i64;
+  for start in 0..7i64 {
+    let back = (wd1 - start).rem_euclid(7);
+    let want_count = ((back + civ.days_in_month(y, m) as i64) + 6) / 7;
+    let key = format!("{:04}-{:02} start {}", y, m, start);
+    let rp = vec!["weeks".to_string(), y.to_string(), m.to_string()];
+    let cnt = guard(|| SolarMonth::from_ym(y as isize, m as usize).get_week_count(start as usize));
+    match cnt {
+      Ok(c) if c as i64 == want_count => l.oc("week_count_ok"),
+      Ok(c) => ctx.violation("week_count", key.clone(), format!("get_week_count={} model={}", c, want_count), rp.clone()),
+      Err(e) => ctx.violation("week_count", key.clone(), format!("panics: {}", e), rp.clone()),
+    }
+    for k in 0..want_count {
+      let first = o1 - back + 7 * k;
+      if first < 0 || first + 6 >= n {
+        l.oc("week_leaves_range_skipped");
+        continue;
+      }
+      l.states += 1;
+      let got = guard(|| SolarWeek::from_ym(y as isize, m as usize, k as usize, start as usize).get_days().iter().map(ymd_of).collect::<Vec<Ymd>>());
+      match got {
+        Ok(v) => {
+          let want: Vec<Ymd> = (0..7).map(|i| civ.date((first + i) as usize)).collect();
+          if v == want {
+            l.oc("week_days_ok");
+          } else {
+            ctx.violation("week_days", format!("{} index {}", key, k), format!("get_days={:?} model={:?}", v, want), rp.clone());
+          }
+        }
+        Err(e) => ctx.violation("week_days", format!("{} index {}", key, k), format!("panics: {}", e), rp.clone()),
+      }
+    }
+  }
+}
+
+const CLOCKS: [(usize, usize, usize); 5] = [(0, 0, 0), (0, 0, 10), (12, 0, 0), (23, 59, 50), (23, 59, 59)];
+const SEC_STEPS: [i64; 12] = [1, 20, 3599, 43200, 86399, 86400, 86401, 90000, 172799, 172800, 2_678_400, 31_622_400];
+
+/// Stepping a time of day by n seconds is stepping the day count by floor((sec_of_day + n) / 86400) civil days.
+fn check_time_steps(ctx: &Ctx, civ: &Civil, ord: usize, l: &mut Local) {
+  let d = civ.date(ord);
+  let n = civ.len() as i64;
+  for c in CLOCKS {
+    let sod = (c.0 * 3600 + c.1 * 60 + c.2) as i64;
+    for s in SEC_STEPS {
+      for step in [s, -s] {
+        let tot = sod + step;
+        let dd = tot.div_euclid(86400);
+        let ts = tot.rem_euclid(86400);
+        let to = ord as i64 + dd;
+        if to < 0 || to >= n {
+          continue;
+        }
+        l.transitions += 1;
+        let want = (civ.date(to as usize), (ts / 3600) as usize, (ts % 3600 / 60) as usize, (ts % 60) as usize);
+        let got = guard(|| {
+          let t = SolarTime::from_ymd_hms(d.0 as isize, d.1 as usize, d.2 as usize, c.0, c.1, c.2).next(step as isize);
+          (ymd_of(&t.get_solar_day()), t.get_hour(), t.get_minute(), t.get_second())
+        });
+        let key = format!("{} {:02}:{:02}:{:02} next({})", fmt_ymd(d), c.0, c.1, c.2, step);
+        let rp = vec!["time".to_string(), d.0.to_string(), d.1.to_string(), d.2.to_string()];
+        match got {
+          Ok(g) if g == want => l.oc("time_step_ok"),
+          Ok(g) => ctx.violation("time_step", key, format!("impl={:?} model={:?}", g, want), rp),
+          Err(e) => ctx.violation("time_step", key, format!("panics: {}", e), rp),
+        }
+      }
+    }
+  }
+}
+
 pub fn run(ctx: &Ctx) {
   let civ = Civil::build();
   let alpha = alphabet(ctx.quick());
@@ -236,6 +315,23 @@ pub fn run(ctx: &Ctx) {
     }
   });
   ctx.subspace(&format!("dates: all 3,652,061 civil dates x observers x step alphabet {:?}", alpha), done, n as u64);
+  // 3. dates handed out in lists: every week of every month, all seven week starts
+  let done = par_chunks(ctx, 0, 9999 * 12, 240, |a, b, l| {
+    for i in a..b {
+      check_weeks(ctx, &civ, (i / 12 + 1) as i32, (i % 12 + 1) as u8, l);
+    }
+  });
+  ctx.subspace("weeks: every week (all indices, week starts 0..6) of every month 0001-01..9999-12: week count, and each of the 7 listed days = model date (first day + i)", done, 9999 * 12 * 7);
+  // 4. time-of-day stepping carries into the day count with floor semantics
+  let stride = if ctx.quick() { 7 } else { 1 };
+  let done = par_chunks(ctx, 0, n, 4096, |a, b, l| {
+    for o in a..b {
+      if o % stride == 0 || civ.date(o).2 == 1 || (1582 == civ.date(o).0 && civ.date(o).1 == 10) {
+        check_time_steps(ctx, &civ, o, l);
+      }
+    }
+  });
+  ctx.subspace(&format!("time steps: {} civil dates (every {}th, every 1st of a month, all of 1582-10) x clocks {:?} x second steps +-{:?}: (date, h, m, s) = model floor carry", if stride == 1 { "all".to_string() } else { format!("1/{} of the", stride) }, stride, CLOCKS, SEC_STEPS), done, (n / stride) as u64 * 120);
   for d in [(1582, 10, 4), (1582, 10, 15), (1, 1, 1), (9999, 12, 31), (1900, 2, 28), (2000, 2, 29)] {
     let o = civ.ord(d.0, d.1, d.2).unwrap();
     let s = guard(|| {
@@ -274,6 +370,15 @@ pub fn replay(ctx: &Ctx, args: &[String]) {
     "triple" | "year" => {
       println!("replay C01 acceptance / lengths of year {}", nums[0]);
       check_accept(ctx, &civ, nums[0], &mut l);
+    }
+    "weeks" => {
+      println!("replay C01 weeks of {:04}-{:02}", nums[0], nums[1]);
+      check_weeks(ctx, &civ, nums[0] as i32, nums[1] as u8, &mut l);
+    }
+    "time" => {
+      let d = (nums[0] as i32, nums[1] as u8, nums[2] as u8);
+      println!("replay C01 time steps from {}", fmt_ymd(d));
+      check_time_steps(ctx, &civ, civ.ord(d.0, d.1, d.2).expect("date exists in the model"), &mut l);
     }
     _ => panic!("unknown replay kind"),
   }
